@@ -35,7 +35,8 @@ type Runner struct {
 	Col    models.Collection
 	// generation bias only (never used for verdicts)
 	believedLive map[int]bool
-	MaxBatch     int // largest random batch (default 5)
+	believedVals map[int]map[string]any // id -> property -> last value written
+	MaxBatch     int                    // largest random batch (default 5)
 	// counters
 	Batches int
 	Errors  []string
@@ -62,6 +63,7 @@ func (r *Runner) collection() models.Collection {
 func (r *Runner) Open(histNo int) error {
 	r.Col = r.collection()
 	r.believedLive = map[int]bool{}
+	r.believedVals = map[int]map[string]any{}
 	r.DBFile = ""
 	if !r.Cfg.Mem {
 		r.DBFile = filepath.Join(r.Dir, fmt.Sprintf("h%d.bbolt", histNo))
@@ -173,8 +175,25 @@ func (r *Runner) proj() M {
 // Write batches
 
 type GenPoint struct {
-	ID  int
-	Doc GenDoc
+	ID   int
+	Doc  GenDoc
+	Vals map[string]any // real values of the indexed properties in Doc
+}
+
+func (r *Runner) gen(id int, forUpdate bool, pInc float64) GenPoint {
+	d := r.G.DocFrom(forUpdate, pInc, r.believedVals[id])
+	return GenPoint{ID: id, Doc: d, Vals: r.G.Last}
+}
+
+func (r *Runner) remember(b []GenPoint, merge bool) {
+	for _, p := range b {
+		if !merge || r.believedVals[p.ID] == nil {
+			r.believedVals[p.ID] = map[string]any{}
+		}
+		for k, v := range p.Vals {
+			r.believedVals[p.ID][k] = v
+		}
+	}
 }
 
 func absBatch(b []GenPoint) []M {
@@ -219,6 +238,7 @@ func (r *Runner) Insert(b []GenPoint) error {
 		for _, p := range b {
 			r.believedLive[p.ID] = true
 		}
+		r.remember(b, false)
 	}
 	r.Batches++
 	r.TW.Emit("Insert", M{"pts": absBatch(b), "ok": b2i(err == nil), "P": r.proj(), "err": errStr(err)})
@@ -230,6 +250,9 @@ func (r *Runner) Update(b []GenPoint) error {
 	upd := make([]int, len(ids))
 	for i, u := range ids {
 		upd[i] = IDOf(u)
+	}
+	if err == nil {
+		r.remember(b, true)
 	}
 	r.Batches++
 	r.TW.Emit("Update", M{"pts": absBatch(b), "ok": b2i(err == nil), "updated": upd, "P": r.proj(), "err": errStr(err)})
@@ -317,8 +340,14 @@ func (r *Runner) allIDs() []int {
 func (r *Runner) pickIDs(n int, wantLive float64) []int {
 	var out []int
 	seen := map[int]bool{}
-	for len(out) < n {
+	if n > r.Cfg.N() {
+		n = r.Cfg.N()
+	}
+	for tries := 0; len(out) < n; tries++ {
 		var id int
+		if tries > 20*n {
+			wantLive = 0 // not enough live ids: fill up with arbitrary ones
+		}
 		if r.R.Float64() < wantLive && len(r.believedLive) > 0 {
 			ks := make([]int, 0, len(r.believedLive))
 			for k := range r.believedLive {
@@ -329,7 +358,7 @@ func (r *Runner) pickIDs(n int, wantLive float64) []int {
 		} else {
 			id = 1 + r.R.Intn(r.Cfg.N())
 		}
-		if seen[id] && len(seen) < r.Cfg.N() {
+		if seen[id] {
 			continue
 		}
 		seen[id] = true
@@ -361,7 +390,7 @@ func (r *Runner) InsertBatch() {
 		mb = 5
 	}
 	for _, id := range r.pickFresh(1 + r.R.Intn(mb)) {
-		b = append(b, GenPoint{id, r.G.Doc(false, 0.9)})
+		b = append(b, r.gen(id, false, 0.9))
 	}
 	r.Insert(b)
 }
@@ -389,17 +418,17 @@ func (r *Runner) RandomBatch() string {
 			ids[r.R.Intn(len(ids))] = r.pickIDs(1, 1)[0]
 		}
 		for _, id := range ids {
-			b = append(b, GenPoint{id, r.G.Doc(false, 0.8)})
+			b = append(b, r.gen(id, false, 0.8))
 		}
 		if len(b) > 0 && r.R.Intn(12) == 0 && !r.Cfg.Mem {
-			b = append(b, GenPoint{b[0].ID, r.G.Doc(false, 0.8)})
+			b = append(b, r.gen(b[0].ID, false, 0.8))
 		}
 		r.Insert(b)
 		return "insert"
 	case x < 0.75:
 		var b []GenPoint
 		for _, id := range r.pickIDs(n, 0.8) {
-			b = append(b, GenPoint{id, r.G.Doc(true, 0.5)})
+			b = append(b, r.gen(id, true, 0.5))
 		}
 		r.Update(b)
 		return "update"
